@@ -10,6 +10,7 @@
     grammars and two (related) expressions.
 -/
 import PestModel.Lemmas.Mono
+import PestModel.Lemmas.OptSoundPrim
 import PestModel.Opt
 
 namespace Pest
@@ -270,6 +271,316 @@ theorem run_AP : ∀ n, AP (run g inp n) := by
 
 theorem atomic_preserved {n : Nat} {e : Expr} {s s' : S0} {ps : List Pair}
     (h : run g inp n e s = .ok s' ps) : s'.atomic = s.atomic := run_AP g inp n e s s' ps h
+
+/-! ### positions stay inside the input -/
+
+/-- a successful evaluation from a position inside the input ends inside the input -/
+def PB (rec : Sem0) : Prop := ∀ e s s' ps, s.pos ≤ inp.size → rec e s = .ok s' ps → s'.pos ≤ inp.size
+
+theorem ruleWrap_pos (name : String) (mod : Nat) (s s' s'' : S0) (ps ps' : List Pair)
+    (h : ruleWrap name mod s s' ps = .ok s'' ps') : s''.pos = s'.pos := by
+  unfold ruleWrap at h
+  by_cases hm : hasBit mod SILENT = true
+  · simp only [hm, ↓reduceIte, R0.ok.injEq] at h
+    rw [← h.1]
+  · simp only [hm, Bool.false_eq_true, ↓reduceIte, R0.ok.injEq] at h
+    rw [← h.1]
+
+theorem ruleApply_pos {rec : Sem0} (hpb : PB inp rec) (name : String) (mod : Nat) (body : Expr) (s s' : S0)
+    (ps : List Pair) (hp : s.pos ≤ inp.size) (h : ruleApply rec name mod body s = .ok s' ps) :
+    s'.pos ≤ inp.size := by
+  unfold ruleApply at h
+  cases hb : rec body { s with atomic := ruleAtomic name mod s.atomic } with
+  | ok s1 ps1 =>
+    rw [hb] at h
+    rw [ruleWrap_pos _ _ _ _ _ _ _ h]
+    exact hpb _ { s with atomic := ruleAtomic name mod s.atomic } _ _ hp hb
+  | fail => rw [hb] at h; simp at h
+  | oof => rw [hb] at h; simp at h
+  | stuck => rw [hb] at h; simp at h
+
+theorem trySkip_pos {rec : Sem0} (hpb : PB inp rec) (r : Option Rule) (s s' : S0) (ps : List Pair)
+    (hp : s.pos ≤ inp.size) (h : trySkip rec r s = .matched s' ps) : s'.pos ≤ inp.size := by
+  unfold trySkip at h
+  cases r with
+  | none => simp at h
+  | some r =>
+    simp only [] at h
+    cases ha : ruleApply rec r.name r.mod r.body s with
+    | ok s1 ps1 =>
+      rw [ha] at h
+      simp only [Try0.matched.injEq] at h
+      rw [← h.1]; exact ruleApply_pos inp hpb _ _ _ _ _ _ hp ha
+    | fail => rw [ha] at h; simp at h
+    | oof => rw [ha] at h; simp at h
+    | stuck => rw [ha] at h; simp at h
+
+theorem trySkip_ne_stop_ok (rec : Sem0) (r : Option Rule) (s s' : S0) (ps : List Pair) :
+    trySkip rec r s ≠ .stop (.ok s' ps) := by
+  unfold trySkip
+  cases r with
+  | none => simp
+  | some w => simp only []; cases ruleApply rec w.name w.mod w.body s <;> simp
+
+theorem skipLoop_pos {rec : Sem0} (hpb : PB inp rec) (ws cm : Option Rule) :
+    ∀ (k : Nat) (s : S0) (acc : List Pair) (s' : S0) (ps : List Pair), s.pos ≤ inp.size →
+      skipLoop rec ws cm k s acc = .ok s' ps → s'.pos ≤ inp.size := by
+  intro k
+  induction k with
+  | zero => intro s acc s' ps _ h; simp [skipLoop] at h
+  | succ k ih =>
+    intro s acc s' ps hp h
+    simp only [skipLoop] at h
+    cases h1 : trySkip rec ws s with
+    | matched s1 ps1 =>
+      rw [h1] at h
+      exact ih _ _ _ _ (trySkip_pos inp hpb _ _ _ _ hp h1) h
+    | stop r =>
+      rw [h1] at h; simp only [] at h; subst h
+      exact absurd h1 (trySkip_ne_stop_ok _ _ _ _ _)
+    | no =>
+      rw [h1] at h
+      simp only [] at h
+      cases h2 : trySkip rec cm s with
+      | matched s1 ps1 =>
+        rw [h2] at h
+        exact ih _ _ _ _ (trySkip_pos inp hpb _ _ _ _ hp h2) h
+      | stop r =>
+        rw [h2] at h; simp only [] at h; subst h
+        exact absurd h2 (trySkip_ne_stop_ok _ _ _ _ _)
+      | no => rw [h2] at h; simp only [R0.ok.injEq] at h; rw [← h.1]; exact hp
+
+theorem skip_pos {rec : Sem0} (hpb : PB inp rec) (k : Nat) (s s' : S0) (ps : List Pair)
+    (hp : s.pos ≤ inp.size) (h : skip g rec k s = .ok s' ps) : s'.pos ≤ inp.size := by
+  unfold skip at h
+  by_cases ha : s.atomic = true
+  · simp only [ha, ↓reduceIte, R0.ok.injEq] at h; rw [← h.1]; exact hp
+  · simp only [ha, Bool.false_eq_true, ↓reduceIte] at h
+    cases hf : g.fusedSkip with
+    | some r => rw [hf] at h; exact ruleApply_pos inp hpb _ _ _ _ _ _ hp h
+    | none =>
+      rw [hf] at h
+      simp only [] at h
+      by_cases hn : ((g.lookup "WHITESPACE").isNone && (g.lookup "COMMENT").isNone) = true
+      · simp only [hn, ↓reduceIte, R0.ok.injEq] at h; rw [← h.1]; exact hp
+      · simp only [hn, Bool.false_eq_true, ↓reduceIte] at h
+        exact skipLoop_pos inp hpb _ _ _ _ _ _ _ hp h
+
+theorem seqL_pos {rec : Sem0} (hpb : PB inp rec) (k : Nat) :
+    ∀ (es : List Expr) (s : S0) (acc : List Pair) (s' : S0) (ps : List Pair), s.pos ≤ inp.size →
+      seqL g rec k es s acc = .ok s' ps → s'.pos ≤ inp.size := by
+  intro es
+  induction es with
+  | nil => intro s acc s' ps hp hh; simp only [seqL, R0.ok.injEq] at hh; rw [← hh.1]; exact hp
+  | cons e rest ih =>
+    intro s acc s' ps hp hh
+    simp only [seqL] at hh
+    cases he : rec e s with
+    | oof => rw [he] at hh; simp at hh
+    | fail => rw [he] at hh; simp at hh
+    | stuck => rw [he] at hh; simp at hh
+    | ok s1 ps1 =>
+      have a1 := hpb _ _ _ _ hp he
+      rw [he] at hh
+      simp only [] at hh
+      by_cases hr : rest.isEmpty = true
+      · simp only [hr, ↓reduceIte, R0.ok.injEq] at hh; rw [← hh.1]; exact a1
+      · simp only [hr, Bool.false_eq_true, ↓reduceIte] at hh
+        cases hsk : skip g rec k s1 with
+        | oof => rw [hsk] at hh; simp at hh
+        | stuck => rw [hsk] at hh; simp at hh
+        | fail => rw [hsk] at hh; simp only [] at hh; exact ih _ _ _ _ a1 hh
+        | ok s2 tps =>
+          rw [hsk] at hh; simp only [] at hh
+          exact ih _ _ _ _ (skip_pos g inp hpb _ _ _ _ a1 hsk) hh
+
+theorem choiceL_pos {rec : Sem0} (hpb : PB inp rec) :
+    ∀ (es : List Expr) (s : S0) (s' : S0) (ps : List Pair), s.pos ≤ inp.size →
+      choiceL rec es s = .ok s' ps → s'.pos ≤ inp.size := by
+  intro es
+  induction es with
+  | nil => intro s s' ps _ hh; simp [choiceL] at hh
+  | cons e rest ih =>
+    intro s s' ps hp hh
+    simp only [choiceL] at hh
+    cases he : rec e s with
+    | oof => rw [he] at hh; simp at hh
+    | fail => rw [he] at hh; exact ih _ _ _ hp hh
+    | stuck => rw [he] at hh; simp at hh
+    | ok s1 ps1 => rw [he] at hh; simp only [R0.ok.injEq] at hh; rw [← hh.1]; exact hpb _ _ _ _ hp he
+
+theorem repLoop_pos {rec : Sem0} (hpb : PB inp rec) (e : Expr) (kk : Nat) :
+    ∀ (k : Nat) (first : Bool) (s : S0) (acc : List Pair) (s' : S0) (ps : List Pair), s.pos ≤ inp.size →
+      repLoop g rec e k kk first s acc = .ok s' ps → s'.pos ≤ inp.size := by
+  intro k
+  induction k with
+  | zero => intro first s acc s' ps _ hh; simp [repLoop] at hh
+  | succ k ih =>
+    intro first s acc s' ps hp hh
+    simp only [repLoop] at hh
+    cases ha : (if first = true then R0.ok s [] else skip g rec kk s) with
+    | oof => rw [ha] at hh; simp at hh
+    | stuck => rw [ha] at hh; simp at hh
+    | fail => rw [ha] at hh; simp only [R0.ok.injEq] at hh; rw [← hh.1]; exact hp
+    | ok s1 tps =>
+      have a1 : s1.pos ≤ inp.size := by
+        by_cases hf : first = true
+        · simp only [hf, ↓reduceIte, R0.ok.injEq] at ha; rw [← ha.1]; exact hp
+        · simp only [hf, Bool.false_eq_true, ↓reduceIte] at ha
+          exact skip_pos g inp hpb _ _ _ _ hp ha
+      rw [ha] at hh
+      simp only [] at hh
+      cases he : rec e s1 with
+      | oof => rw [he] at hh; simp at hh
+      | stuck => rw [he] at hh; simp at hh
+      | fail => rw [he] at hh; simp only [R0.ok.injEq] at hh; rw [← hh.1]; exact hp
+      | ok s2 ps2 =>
+        rw [he] at hh
+        exact ih _ _ _ _ _ (hpb _ _ _ _ a1 he) hh
+
+theorem step_PB {rec : Sem0} (h : PB inp rec) (k : Nat) : PB inp (step g inp k rec) := by
+  intro e s s' ps hp hh
+  cases e with
+  | ident name tag =>
+    simp only [step, callRule] at hh
+    cases hl : g.lookup name with
+    | none => rw [hl] at hh; simp at hh
+    | some r => rw [hl] at hh; exact ruleApply_pos inp h _ _ _ _ _ _ hp hh
+  | rule name mod sm body => exact ruleApply_pos inp h _ _ _ _ _ _ hp hh
+  | seq es => exact seqL_pos g inp h k _ _ _ _ _ hp hh
+  | choice es => exact choiceL_pos inp h _ _ _ _ hp hh
+  | rep e => exact repLoop_pos g inp h e k k true s [] s' ps hp hh
+  | rep1 e => exact seqL_pos g inp h k _ _ _ _ _ hp hh
+  | repExact e n => exact seqL_pos g inp h k _ _ _ _ _ hp hh
+  | repMin e n => exact seqL_pos g inp h k _ _ _ _ _ hp hh
+  | repMax e n => exact seqL_pos g inp h k _ _ _ _ _ hp hh
+  | repMinMax e m n => exact seqL_pos g inp h k _ _ _ _ _ hp hh
+  | opt e =>
+    simp only [step] at hh
+    cases he : rec e s with
+    | ok s1 ps1 => rw [he] at hh; simp only [R0.ok.injEq] at hh; rw [← hh.1]; exact h _ _ _ _ hp he
+    | fail => rw [he] at hh; simp only [R0.ok.injEq] at hh; rw [← hh.1]; exact hp
+    | oof => rw [he] at hh; simp at hh
+    | stuck => rw [he] at hh; simp at hh
+  | andP e =>
+    simp only [step] at hh
+    cases he : rec e s with
+    | ok s1 ps1 => rw [he] at hh; simp only [R0.ok.injEq] at hh; rw [← hh.1]; exact hp
+    | fail => rw [he] at hh; simp at hh
+    | oof => rw [he] at hh; simp at hh
+    | stuck => rw [he] at hh; simp at hh
+  | notP e =>
+    simp only [step] at hh
+    cases he : rec e s with
+    | ok s1 ps1 => rw [he] at hh; simp at hh
+    | fail => rw [he] at hh; simp only [R0.ok.injEq] at hh; rw [← hh.1]; exact hp
+    | oof => rw [he] at hh; simp at hh
+    | stuck => rw [he] at hh; simp at hh
+  | group e tag => exact h _ _ _ _ hp hh
+  | push e =>
+    simp only [step] at hh
+    cases he : rec e s with
+    | ok s1 ps1 =>
+      rw [he] at hh; simp only [R0.ok.injEq] at hh; rw [← hh.1]
+      show s1.pos ≤ inp.size
+      exact h _ _ _ _ hp he
+    | fail => rw [he] at hh; simp at hh
+    | oof => rw [he] at hh; simp at hh
+    | stuck => rw [he] at hh; simp at hh
+  | str x =>
+    simp only [step] at hh
+    split at hh
+    · rename_i hm
+      simp only [adv, R0.ok.injEq] at hh; rw [← hh.1]; exact OptS.swa_size inp x s.pos hm
+    · simp at hh
+  | ci x =>
+    simp only [step] at hh
+    split at hh
+    · rename_i hm
+      simp only [adv, R0.ok.injEq] at hh; rw [← hh.1]; exact OptS.swaCI_size inp x s.pos hm
+    · simp at hh
+  | range a b =>
+    simp only [step] at hh
+    split at hh
+    · rename_i c hc
+      have := OptS.getElem?_lt inp hc
+      split at hh
+      · simp only [adv, R0.ok.injEq] at hh; rw [← hh.1]; show s.pos + 1 ≤ inp.size; omega
+      · simp at hh
+    · simp at hh
+  | pushLit x => simp only [step, R0.ok.injEq] at hh; rw [← hh.1]; exact hp
+  | peek =>
+    simp only [step] at hh
+    split at hh
+    · simp at hh
+    · rename_i t _ _
+      split at hh
+      · rename_i hm
+        simp only [adv, R0.ok.injEq] at hh; rw [← hh.1]; exact OptS.swa_size inp t s.pos hm
+      · simp at hh
+  | pop =>
+    simp only [step] at hh
+    split at hh
+    · simp at hh
+    · rename_i t _ _
+      split at hh
+      · rename_i hm
+        simp only [adv, R0.ok.injEq] at hh; rw [← hh.1]; exact OptS.swa_size inp t s.pos hm
+      · simp at hh
+  | drop =>
+    simp only [step] at hh
+    split at hh
+    · simp at hh
+    · simp only [R0.ok.injEq] at hh; rw [← hh.1]; exact hp
+  | peekAll =>
+    simp only [step, matchLits] at hh
+    split at hh
+    · rename_i p hm
+      simp only [R0.ok.injEq] at hh; rw [← hh.1]; exact (OptS.matchAll_le inp _ _ _ hm).2 hp
+    · simp at hh
+  | popAll =>
+    simp only [step, matchLits] at hh
+    split at hh
+    · rename_i p hm
+      simp only [R0.ok.injEq] at hh; rw [← hh.1]; exact (OptS.matchAll_le inp _ _ _ hm).2 hp
+    · simp at hh
+  | peekSlice a b =>
+    simp only [step, matchLits] at hh
+    split at hh
+    · rename_i p hm
+      simp only [R0.ok.injEq] at hh; rw [← hh.1]; exact (OptS.matchAll_le inp _ _ _ hm).2 hp
+    · simp at hh
+  | anyB =>
+    simp only [step] at hh
+    split at hh
+    · simp only [adv, R0.ok.injEq] at hh; rw [← hh.1]; show s.pos + 1 ≤ inp.size; omega
+    · simp at hh
+  | soiB => simp only [step] at hh; split at hh <;> simp at hh; rw [← hh.1]; exact hp
+  | eoiB => simp only [step] at hh; split at hh <;> simp at hh; rw [← hh.1]; exact hp
+  | uprop n =>
+    simp only [step] at hh
+    split at hh
+    · rename_i c hc
+      have := OptS.getElem?_lt inp hc
+      split at hh
+      · simp only [adv, R0.ok.injEq] at hh; rw [← hh.1]; show s.pos + 1 ≤ inp.size; omega
+      · simp at hh
+    · simp at hh
+  | skipUntil subs =>
+    simp only [step, R0.ok.injEq] at hh; rw [← hh.1]
+    exact (OptS.skipUntilPos_le inp subs s.pos hp).2
+  | optChoice alts star =>
+    simp only [step] at hh
+    split at hh
+    · rename_i p hm
+      simp only [R0.ok.injEq] at hh; rw [← hh.1]; exact (OptS.optMatch_le inp g _ _ _ _ hm).2 hp
+    · simp at hh
+
+theorem run_PB : ∀ n, PB inp (run g inp n) := by
+  intro n
+  induction n with
+  | zero => intro e s s' ps _ h; simp [run] at h
+  | succ n ih => exact step_PB g inp ih n
 
 /-! ### "eventually" -/
 
